@@ -174,7 +174,7 @@ fn items01(tier: Tier) -> Vec<Item01> {
     let ls: Vec<usize> = if q { vec![64, 72, 256] } else { vec![64, 72, 104, 128, 200, 256, 504, 512] };
     let variants: Vec<(Interp, usize)> = if q {
         // oversampling 6: with dyadic steps (ratio 8, 0.25) only some frames fall on the sub-filter grid
-        vec![(Interp::Cubic, 256), (Interp::Cubic, 16), (Interp::Cubic, 6), (Interp::Quadratic, 64), (Interp::Linear, 512), (Interp::Nearest, 1024)]
+        vec![(Interp::Cubic, 256), (Interp::Cubic, 16), (Interp::Cubic, 6), (Interp::Quadratic, 64), (Interp::Linear, 2048), (Interp::Nearest, 1024)]
     } else {
         vec![
             (Interp::Cubic, 16),
@@ -457,7 +457,7 @@ pub struct C02;
 enum Item02 {
     /// calculate_cutoff over a block of lengths
     Cutoff { window: WindowFunction, lo: usize, hi: usize, step: usize },
-    Sinc { window: WindowFunction, l: usize, cc: bool },
+    Sinc { window: WindowFunction, l: usize, cc: bool, os: usize },
     Fft { a: usize, b: usize },
 }
 
@@ -478,8 +478,13 @@ fn items02(tier: Tier) -> Vec<Item02> {
         // 71, 100, 509: not multiples of 8, the constructors round the filter length up
         for l in if q { vec![64usize, 71, 256] } else { vec![64usize, 71, 100, 128, 256, 509, 512] } {
             for cc in [true, false] {
-                v.push(Item02::Sinc { window: w, l, cc });
+                v.push(Item02::Sinc { window: w, l, cc, os: 256 });
             }
+        }
+        // tables of a million points and more
+        v.push(Item02::Sinc { window: w, l: 512, cc: true, os: 2048 });
+        if !q {
+            v.push(Item02::Sinc { window: w, l: 256, cc: true, os: 4096 });
         }
     }
     for (a, b) in [(44100usize, 48000usize), (48000, 44100), (48000, 96000), (96000, 48000), (44100, 192000), (192000, 44100), (8000, 48000), (48000, 8000), (3, 2), (2, 3), (7, 5), (5, 7)] {
@@ -569,7 +574,7 @@ fn c02_cutoff<T: Flt>(acc: &mut Acc, window: WindowFunction, l: usize) {
     }
 }
 
-fn c02_sinc(acc: &mut Acc, tier: Tier, window: WindowFunction, l: usize, cc: bool, journal: Option<&JournalFile>) -> Result<(), String> {
+fn c02_sinc(acc: &mut Acc, tier: Tier, window: WindowFunction, l: usize, cc: bool, os: usize, journal: Option<&JournalFile>) -> Result<(), String> {
     let q = tier == Tier::Quick;
     let ccv = calculate_cutoff::<f32>(l, window);
     let f_cutoff = if cc { ccv } else { 0.8 };
@@ -577,8 +582,11 @@ fn c02_sinc(acc: &mut Acc, tier: Tier, window: WindowFunction, l: usize, cc: boo
     for &ratio in &ratios {
         for (kind, max_rel) in [(Kind::SI, 1.0), (Kind::SO, 1.0), (Kind::SI, 2.0), (Kind::SO, 1.1)] {
             // the filter must not depend on the adjustable range
-            let mut cfg = sinc_cfg(kind, ratio, if kind == Kind::SI { 500 } else { 512 }, l, 256, Interp::Cubic, window, f_cutoff);
+            let mut cfg = sinc_cfg(kind, ratio, if kind == Kind::SI { 500 } else { 512 }, l, os, Interp::Cubic, window, f_cutoff);
             cfg.max_rel = max_rel;
+            if os > 256 && max_rel != 1.0 {
+                continue;
+            }
             c02_sinc_unit::<f64>(acc, &cfg, window, l, cc, ratio, journal)?;
             // single precision runs through the kernel the dispatch selects for f32; the rejection
             // figures are stated for f64, an f32 stream is held to single precision (2^-18)
@@ -725,9 +733,9 @@ impl Check for C02 {
                     l += step;
                 }
             }
-            Item02::Sinc { window, l, cc } => {
-                label = format!("sinc stopband {} L{} {}", window_name(window), l, if cc { "f_cutoff=calculate_cutoff" } else { "f_cutoff=0.8" });
-                c02_sinc(&mut acc, tier, window, l, cc, journal)?;
+            Item02::Sinc { window, l, cc, os } => {
+                label = format!("sinc stopband {} L{} os{} {}", window_name(window), l, os, if cc { "f_cutoff=calculate_cutoff" } else { "f_cutoff=0.8" });
+                c02_sinc(&mut acc, tier, window, l, cc, os, journal)?;
             }
             Item02::Fft { a, b } => {
                 label = format!("fft stopband {}->{}", a, b);
